@@ -264,3 +264,269 @@ def check_tag_tables(ctx, P, only=None):
             "casts": [f.key for f, _, _ in tb["as_casts"]],
         }
     return True
+
+
+# ---------------------------------------------------------------------------
+# byte codecs: writer / reader classification
+
+import re as _re
+
+
+def byte_codec_fns(P):
+    ws, rs = {}, {}
+    for k, f in P.fns.items():
+        m = _re.match(r"^<Vec<u8> as From<&([A-Za-z0-9]+)(<C>)?>>::from$", k)
+        if m:
+            ws[m.group(1)] = f
+        m = _re.match(r"^<([A-Za-z0-9]+)(<C>)? as TryFrom<&\[u8\]>>::try_from$", k)
+        if m:
+            rs[m.group(1)] = f
+    return ws, rs
+
+
+def _norm_ty(s):
+    return s.replace("&", "").replace("mut ", "").replace(" ", "")
+
+
+def _unwrap(t):
+    while t.op == "call" and B.cname(t) in ("Result::<T, E>::unwrap", "Result::<T, E>::expect"):
+        t = t.a[1][0]
+    return t
+
+
+def classify_writer(P, f):
+    ev = evaluate(f)
+    ret = strip_sites(ev.ret)
+    alts = list(ret.a[0]) if ret.op == "phi" else [ret]
+    kinds = set()
+    for r in alts:
+        r = _unwrap(r)
+        if r.op == "call" and B.cname(r) == "serde_bare::to_vec":
+            ty = [s for s in ev.sites.values() if s.callee[0] == "serde_bare::to_vec"][0].callee[1]
+            arg = B.peel(r.a[1][0])
+            if arg.op == "agg" and arg.a[0][0] == "tuple":
+                kinds.add(("BareTagged", _norm_ty(ty[0])))
+            else:
+                root = F_root(r.a[1][0])
+                kinds.add(("Bare", _norm_ty(ty[0]), root))
+            continue
+        segs = B.nf(ev, r)
+        if len(segs) == 1 and segs[0][0] == "v":
+            t = segs[0][1]
+            if t.op == "call" and B.cname(t) == "GroupEncoding::to_bytes":
+                kinds.add(("PointCompressed", F_root(t.a[1][0])))
+                continue
+            if t.op == "call" and B.cname(t) in ("helpers::scalar_to_be_bytes", "SecretKey<C>::to_be_bytes"):
+                kinds.add(("ScalarBE",))
+                continue
+            if t.op == "call" and B.cname(t) in ("helpers::scalar_to_le_bytes", "SecretKey<C>::to_le_bytes"):
+                kinds.add(("ScalarLE",))
+                continue
+            if t.op == "field" and F_root(t) is not None:
+                kinds.add(("Raw", F_root(t)))
+                continue
+        if len(segs) == 2 and segs[0][0] == "v1":
+            kinds.add(("CurveTagged",))
+            continue
+        if segs and segs[0][0] in ("v1", "b") and any(x[0] == "phi" for x in segs[1:]):
+            kinds.add(("CurveTagged",))
+            continue
+        kinds.add(("Unknown", B.show_nf(segs)[:80]))
+    return kinds
+
+
+def F_root(t):
+    from .flow import projection_root
+
+    r = projection_root(strip_sites(t))
+    return (r[0].a[1] + r[1]) if r else None
+
+
+def classify_reader(P, f):
+    ev = evaluate(f)
+    names = [(s.callee[0], s.callee[1]) for s in ev.sites.values()]
+    kinds = set()
+    for n, g in names:
+        if n == "serde_bare::from_slice":
+            ty = _norm_ty(g[0])
+            kinds.add(("BareTagged", ty) if ty.startswith("(") else ("Bare", ty))
+        elif n == "GroupEncoding::from_bytes":
+            kinds.add(("PointCompressed",))
+        elif n in ("helpers::scalar_from_be_bytes", "SecretKey<C>::from_be_bytes"):
+            kinds.add(("ScalarBE",))
+        elif n in ("helpers::scalar_from_le_bytes", "SecretKey<C>::from_le_bytes"):
+            kinds.add(("ScalarLE",))
+        elif n == "TryInto::try_into" and len(g) == 2 and g[1].startswith("[u8;"):
+            kinds.add(("Raw",))
+        elif n == "TryFrom::try_from" and g and g[0] == "Bls12381":
+            kinds.add(("CurveTagged",))
+    return kinds
+
+
+def check_byte_codecs(ctx, P, rule="E9.bytes"):
+    ws, rs = byte_codec_fns(P)
+    ctx.floor(rule, "types with From<&T> for Vec<u8> + TryFrom<&[u8]>", min(len(ws), len(rs)), 26)
+    for n in sorted(set(ws) | set(rs)):
+        if n not in ws or n not in rs:
+            ctx.ob(rule + ".pair", n, False, "type `%s` has %s but no %s" % (n, "a byte writer" if n in ws else "a byte reader", "reader" if n in ws else "writer"))
+            continue
+        ctx.saw(ws[n])
+        ctx.saw(rs[n])
+        wk, rk = classify_writer(P, ws[n]), classify_reader(P, rs[n])
+        wkind = {k[0] for k in wk}
+        rkind = {k[0] for k in rk}
+        ok = len(wkind) == 1 and wkind == rkind and "Unknown" not in wkind
+        detail = "writer %s / reader %s" % (sorted(map(str, wk)), sorted(map(str, rk)))
+        if ok and wkind == {"Bare"}:
+            wt = {k[1] for k in wk}
+            rt = {k[1] for k in rk}
+            # writer type argument `&T`/`T` equals reader's type argument; newtype adaptation `&x.0` <-> `.map(Self)`
+            ok = wt == rt or (wt == {"<CasPairing>::PublicKeyShare"} == rt)
+            detail += " ; type arguments %s vs %s" % (sorted(wt), sorted(rt))
+            wroot = {k[2] for k in wk}
+            # whole value, or the single field of a newtype
+            ok = ok and all(r is not None for r in wroot)
+        if ok and wkind == {"BareTagged"}:
+            wt = {k[1] for k in wk}
+            rt = {k[1] for k in rk}
+            ok = wt == rt
+            detail += " ; tuple types %s vs %s" % (sorted(wt), sorted(rt))
+        if "Unknown" in wkind or not rk:
+            ctx.ob(rule + ".classify", n, False, "unclassified byte codec (a new encoder/decoder must be triaged): " + detail, where=where(rs[n]))
+            continue
+        ctx.ob(rule, n, ok, "byte codec kinds agree: " + detail, where=where(rs[n]), sample={"type": n, "writer": sorted(map(str, wk)), "reader": sorted(map(str, rk))})
+    return ws, rs
+
+
+def check_delegations(ctx, P, rule="E9.delegate"):
+    """The macro-derived container conversions delegate to the primary pair without touching the bytes."""
+    n = 0
+    for k, f in sorted(P.fns.items()):
+        m = _re.match(r"^<([A-Za-z0-9]+)(<C>)? as TryFrom<(Vec<u8>|&Vec<u8>|Box<\[u8\]>)>>::try_from$", k)
+        m2 = _re.match(r"^<Vec<u8> as From<([A-Za-z0-9]+)(<C>)?>>::from$", k)
+        if not (m or m2):
+            continue
+        n += 1
+        ctx.saw(f)
+        r = strip_sites(evaluate(f).ret)
+        ok = r.op == "call" and len(r.a[1]) == 1
+        if ok:
+            name = B.cname(r)
+            arg = r.a[1][0]
+            root = None
+            x = arg
+            while x.op in ("ref", "deref") or (x.op == "call" and B.cname(x) in ("Vec::<T, A>::as_slice", "AsRef::as_ref", "Deref::deref", "Borrow::borrow")):
+                x = x.a[0] if x.op in ("ref", "deref") else x.a[1][0]
+            ok = x.op == "param" and x.a[1] == "value"
+            if m:
+                ok = ok and (name.endswith("::try_from") or name == "TryFrom::try_from")
+            else:
+                ok = ok and (name in ("From::from",) or name.endswith("::from"))
+        ctx.ob(rule, k, ok, "delegates to the primary conversion with the bytes unmodified: %s" % show(r, 4), where=where(f))
+    ctx.floor(rule, "derived container conversions", n, 100)
+
+
+def check_serde_with_pairs(ctx, P, rule="E9.serde"):
+    """Per type: the sequence of traits::M::serialize callees in its __SerializeWith helpers equals the
+    sequence of traits::M::deserialize callees in its __DeserializeWith helpers."""
+    ser, de = {}, {}
+    for k, f in P.fns.items():
+        if "__SerializeWith" in k and k.endswith("serialize") or "__SerializeWith" in k and "::serialize#" in k:
+            ty = _re.match(r"^<<([A-Za-z0-9]+)", k)
+            idx = int(k.rsplit("#", 1)[1]) if "#" in k.rsplit("::", 1)[-1] else 0
+            mods = [_mod(t) for bb, t in f.calls() if _mod(t)]
+            if ty and mods:
+                ser.setdefault(ty.group(1), []).append((idx, mods[0], f))
+        if "__DeserializeWith" in k and ("::deserialize" in k.rsplit(">", 1)[-1]):
+            ty = _re.match(r"^<<+([A-Za-z0-9]+)", k)
+            idx = int(k.rsplit("#", 1)[1]) if "#" in k.rsplit("::", 1)[-1] else 0
+            mods = [_mod(t) for bb, t in f.calls() if _mod(t)]
+            if ty and mods:
+                de.setdefault(ty.group(1), []).append((idx, mods[0], k, f))
+    n = 0
+    for ty in sorted(set(ser) | set(de)):
+        s = [m for _, m, _ in sorted(ser.get(ty, []), key=lambda x: x[0])]
+        # deserialize helpers are emitted once per visitor method (visit_seq and visit_map): compare as multisets of field order
+        dl = sorted(de.get(ty, []), key=lambda x: (x[2].count("visit_map"), x[0]))
+        d_seq = [m for i, m, k, _ in dl if "visit_seq" in k or "visit_newtype" in k or "visit_enum" in k and "visit_map" not in k]
+        d_all = [m for _, m, _, _ in dl]
+        n += 1
+        ok = bool(s) and d_seq[: len(s)] == s and len(d_all) % max(1, len(s)) == 0 and set(d_all) == set(s)
+        ctx.ob(rule, ty, ok, "serialize_with modules %s ; deserialize_with modules (seq order) %s" % (s, d_seq or d_all), sample={"type": ty, "ser": s, "de": d_all})
+        for x in ser.get(ty, []):
+            ctx.saw(x[2])
+    ctx.floor(rule, "types with serialize_with/deserialize_with fields", n, 14)
+    # BlsSerde impl pairs: serialize_X / deserialize_X on the same associated type
+    impls = {}
+    for k, f in P.fns.items():
+        if f.impl_trait == "BlsSerde":
+            kind, what = f.name.split("_", 1)
+            tys = [t["callee"].get("self_ty") for bb, t in f.calls() if t.get("callee") and t["callee"].get("trait") in ("Serialize", "Deserialize", "BigArray")]
+            trs = [t["callee"].get("trait") for bb, t in f.calls() if t.get("callee") and t["callee"].get("trait") in ("Serialize", "Deserialize", "BigArray")]
+            impls.setdefault((f.impl_self, what), {})[kind] = (tys, trs, f)
+    for (im, what), d in sorted(impls.items()):
+        if "serialize" in d and "deserialize" in d:
+            st, sr, sf = d["serialize"]
+            dt, dr, df = d["deserialize"]
+            norm = lambda xs: [x.replace("<Self as Pairing>::", "").replace("&", "") for x in xs if x]
+            ok = len(st) == 1 and len(dt) == 1 and norm(st) == norm(dt) and (sr[0] == "BigArray") == (dr[0] == "BigArray")
+            ctx.ob(rule + ".blsserde", "%s/%s" % (im, what), ok, "serialize_%s uses <%s as %s>, deserialize_%s uses <%s as %s>" % (what, st, sr, what, dt, dr), where=where(df))
+            # the deserializer is a direct delegation (no hand-rolled visitor)
+            r = strip_sites(evaluate(df).ret)
+            ctx.ob(rule + ".blsserde", "%s/deserialize_%s/direct" % (im, what), r.op == "call" and B.peel(r.a[1][0]).op == "param", "deserialize_%s is exactly a call to the associated type's deserializer" % what, where=where(df))
+        else:
+            ctx.ob(rule + ".blsserde", "%s/%s" % (im, what), False, "BlsSerde impl has only one of serialize_%s / deserialize_%s" % (what, what))
+    ctx.floor(rule + ".blsserde", "BlsSerde method pairs", len(impls), 10)
+
+
+def _mod(t):
+    c = t.get("callee") or {}
+    k = c.get("key") or ""
+    m = _re.match(r"^(scalar|signature|public_key|public_key_share|secret_key_share)::(serialize|deserialize)$", k)
+    if m:
+        return m.group(1)
+    if c.get("trait") == "BigArray":
+        return "fixed_arr"
+    return None
+
+
+def check_endianness(ctx, P, rule="E9.endian"):
+    for fk, want_rev in (("helpers::scalar_to_be_bytes", True), ("helpers::scalar_to_le_bytes", False), ("helpers::scalar_from_be_bytes", True), ("helpers::scalar_from_le_bytes", False)):
+        f = ctx.need_fn(rule, fk, P)
+        if f is None:
+            continue
+        ev = evaluate(f)
+        revs = [s for s in ev.sites.values() if s.callee[0] == "slice::<impl [T]>::reverse"]
+        if "to_" in fk:
+            src = any(s.callee[0] == "PrimeField::to_repr" for s in ev.sites.values())
+            ok = src and (len(revs) == 1) == want_rev
+        else:
+            # from: copy_from_slice(input) then (reverse) then from_repr on the same buffer
+            fr = [s for s in ev.sites.values() if s.callee[0] == "PrimeField::from_repr"]
+            ok = bool(fr) and (len(revs) == 1) == want_rev
+            if ok:
+                arg = strip_sites(fr[0].args[0])
+                has_copy = any(t.op == "mutcall" and B.cname(t) == "slice::<impl [T]>::copy_from_slice" and any(x.op == "param" and x.a[1] == "input" for x in subterms(t)) for t in subterms(arg))
+                has_rev = any(t.op == "mutcall" and B.cname(t) == "slice::<impl [T]>::reverse" for t in subterms(arg))
+                ok = has_copy and has_rev == want_rev
+        ctx.ob(rule, fk, ok, "%s %s the field's little-endian repr (reverse calls: %d)" % (fk, "reverses" if want_rev else "does not reverse", len(revs)), where=where(f))
+
+
+def check_layouts(ctx, P, rule="E9.layout"):
+    """Field order + codec module per field and variant order vs the pinned wire table."""
+    pinned = spec("pinned.json")
+    # field -> module from the serde helpers
+    for ty, want in pinned["layouts"].items():
+        a = P.adts.get(ty)
+        if a is None:
+            ctx.ob(rule + ".anchor", ty, False, "serialized type `%s` not found" % ty)
+            continue
+        got = [f["name"] for f in a["variants"][0]["fields"]]
+        ctx.ob(rule, ty + "/fields", got == [w[0] for w in want], "field order of %s = %s (pinned %s)" % (ty, got, [w[0] for w in want]))
+    for ty, want in pinned["enum_layouts"].items():
+        a = P.adts.get(ty)
+        if a is None:
+            ctx.ob(rule + ".anchor", ty, False, "serialized enum `%s` not found" % ty)
+            continue
+        got = [[v["name"], [f["name"] for f in v["fields"]]] for v in a["variants"]]
+        ctx.ob(rule, ty + "/variants", got == want, "variant order of %s = %s (pinned %s)" % (ty, got, want))
